@@ -183,7 +183,14 @@ def r_globals(ctx, prog):
                     elif u2.op == 'getelementptr':
                         tt = Terms(f)
                         base = tt.term(u2.ops[0])
-                        if not (base[0] == 'call' and base[1] in ALLOCATORS):
+                        local_array = base[0] == 'call' and base[1] in ALLOCATORS
+                        if not local_array and base[0] == 'param' and f.internal:
+                            # a static helper that shuffles the array it is given: every caller passes a fresh local array
+                            sites = prog.callers(f.name)
+                            local_array = bool(sites) and all(
+                                (lambda t0: t0[0] == 'call' and t0[1] in ALLOCATORS)(Terms(c2.fn).term(c2.args[base[1]]))
+                                for c2 in sites if base[1] < len(c2.args))
+                        if not local_array:
                             ok = False
                             why = 'indexes %s' % show(base)
                     else:
